@@ -699,12 +699,12 @@ func (obj *SparseInt16Matrix) ITERATOR_FROM(i, j int) *SparseInt16MatrixIterator
   return &r
 }
 func (obj *SparseInt16Matrix) JOINT_ITERATOR(b ConstMatrix) *SparseInt16MatrixJointIterator {
-  r := SparseInt16MatrixJointIterator{obj.ITERATOR(), b.ConstIterator(), -1, -1, Int16{}, nil}
+  r := SparseInt16MatrixJointIterator{obj.ITERATOR(), b.ConstIterator(), -1, -1, Int16{}, nil, false}
   r.Next()
   return &r
 }
 func (obj *SparseInt16Matrix) JOINT3_ITERATOR(b, c ConstMatrix) *SparseInt16MatrixJoint3Iterator {
-  r := SparseInt16MatrixJoint3Iterator{obj.ITERATOR(), b.ConstIterator(), c.ConstIterator(), -1, -1, Int16{}, nil, nil}
+  r := SparseInt16MatrixJoint3Iterator{obj.ITERATOR(), b.ConstIterator(), c.ConstIterator(), -1, -1, Int16{}, nil, nil, false}
   r.Next()
   return &r
 }
@@ -756,13 +756,13 @@ type SparseInt16MatrixJointIterator struct {
   i, j int
   s1 Int16
   s2 ConstScalar
+  ok bool
 }
 func (obj *SparseInt16MatrixJointIterator) Index() (int, int) {
   return obj.i, obj.j
 }
 func (obj *SparseInt16MatrixJointIterator) Ok() bool {
-  return !(obj.s1.ptr == nil || obj.s1.GetInt16() == int16(0)) ||
-         !(obj.s2 == nil || obj.s2.GetInt16() == int16(0))
+  return obj.ok
 }
 func (obj *SparseInt16MatrixJointIterator) Next() {
   ok1 := obj.it1.Ok()
@@ -784,6 +784,9 @@ func (obj *SparseInt16MatrixJointIterator) Next() {
       obj.s2 = obj.it2.GetConst()
     }
   }
+  // the iterator is valid as long as one of the matrices delivered an entry,
+  // regardless of its value
+  obj.ok = obj.s1.ptr != nil || obj.s2 != nil
   if obj.s1.ptr != nil {
     obj.it1.Next()
   }
@@ -818,6 +821,7 @@ func (obj *SparseInt16MatrixJointIterator) Clone() *SparseInt16MatrixJointIterat
   r.j = obj.j
   r.s1 = obj.s1
   r.s2 = obj.s2
+  r.ok = obj.ok
   return &r
 }
 func (obj *SparseInt16MatrixJointIterator) CloneJointIterator() MatrixJointIterator {
@@ -836,14 +840,13 @@ type SparseInt16MatrixJoint3Iterator struct {
   s1 Int16
   s2 ConstScalar
   s3 ConstScalar
+  ok bool
 }
 func (obj *SparseInt16MatrixJoint3Iterator) Index() (int, int) {
   return obj.i, obj.j
 }
 func (obj *SparseInt16MatrixJoint3Iterator) Ok() bool {
-  return !(obj.s1.ptr == nil || obj.s1.GetInt16() == 0.0) ||
-         !(obj.s2 == nil || obj.s2.GetInt16() == 0.0) ||
-         !(obj.s3 == nil || obj.s3.GetInt16() == 0.0)
+  return obj.ok
 }
 func (obj *SparseInt16MatrixJoint3Iterator) Next() {
   ok1 := obj.it1.Ok()
@@ -881,6 +884,9 @@ func (obj *SparseInt16MatrixJoint3Iterator) Next() {
       obj.s3 = obj.it3.GetConst()
     }
   }
+  // the iterator is valid as long as one of the matrices delivered an entry,
+  // regardless of its value
+  obj.ok = obj.s1.ptr != nil || obj.s2 != nil || obj.s3 != nil
   if obj.s1.ptr != nil {
     obj.it1.Next()
   }
